@@ -310,10 +310,10 @@ def alpha_exp(a):
     """alpha -> exponent e with |a - 2^-e| within the 3-digit rounding, else None."""
     if a <= 0:
         return -1
-    for e in range(0, 12):
-        if abs(a - 2.0 ** -e) <= 0.00051:
-            return e
-    return None
+    # nearest power of two; the value may have been rounded to 3 digits twice on its way (once
+    # before and once after a group opacity was multiplied in), hence 1.1e-3
+    best = min(range(0, 12), key=lambda e: abs(a - 2.0 ** -e))
+    return best if abs(a - 2.0 ** -best) <= 0.0011 else None
 
 
 def local(tag):
